@@ -34,8 +34,9 @@ func Import(fs afero.Fs) {
 	}, phttp.DefaultHTTP2GunConfig)
 
 	register.Gun("connect", func(conf phttp.GunConfig) func() core.Gun {
-		conf.Target, _ = phttp.PreResolveTargetAddr(&conf.Client, conf.Target)
-		conf.TargetResolved = conf.Target
+		// Target keeps the configured name (default Host header, TLS server name); the tunnel is dialed at the resolved address
+		targetResolved, _ := phttp.PreResolveTargetAddr(&conf.Client, conf.Target)
+		conf.TargetResolved = targetResolved
 		answLog := answlog.Init(conf.AnswLog.Path, conf.AnswLog.Enabled)
 		return func() core.Gun {
 			return phttp.WrapGun(phttp.NewConnectGun(conf, answLog))
